@@ -570,7 +570,7 @@ def check(prop, tier, replay=None):
     t0 = time.time()
     if prop == "C05":
         leg_m(V, wd, tier, ["TypeOK", "C05M"])
-        n = 500 if tier == "quick" else 6000
+        n = 500 if tier == "quick" else 40000
         for i in range(n):
             case = gen_case(rng, True, tier)
             data, _ = synth(case["pat"], case["B"], case["tail"], case["sw"], case["ch"])
@@ -596,7 +596,7 @@ def check(prop, tier, replay=None):
     elif prop == "C06":
         leg_m_durations(V, wd, tier)
         traces += c06_cases(rng, tier, M)
-        n = 300 if tier == "quick" else 4000
+        n = 300 if tier == "quick" else 15000
         for i in range(n):
             case = gen_case(rng, False, tier)
             data, _ = synth(case["pat"], case["B"], case["tail"], case["sw"], case["ch"])
@@ -610,7 +610,7 @@ def check(prop, tier, replay=None):
                            "info": f"{'AudioReader input hop=%s' % hop if rdr else 'bytes'} fmt={case['sw']}x{case['ch']}"})
     elif prop == "C09":
         leg_m(V, wd, tier, ["TypeOK", "C05M"])
-        for i in range(25 if tier == "quick" else 300):
+        for i in range(25 if tier == "quick" else 1500):
             traces += c09_group(rng, tier, M, tmpdir)
     rows, st = judge_split(traces, wd)
     V.cov["states"] += st
